@@ -1053,4 +1053,215 @@ Section DbProofs.
   Proof.
     unfold strict_anc. rewrite andb_true_iff, extb_spec, negb_true_iff, str_eqb_neq. tauto.
   Qed.
+
+  (* ================================================================ no operation fails half way
+     The model returns the unchanged store on an error; the code raises where it stands.  For consistent stores
+     the only errors are the refusals taken before the first change: a path without a key (ValueError), an empty
+     path (IndexError), a level beyond the path (ValueError), revoking a node that is not stored (KeyError). *)
+  Definition fine (e : res db) : Prop := exists d', e = Ok d'.
+  Definition stored_subs (key : pystr) (d : db) : Prop :=
+    forall k n s, assoc k d = Some n -> extb key k = true -> In s (nsubs n) -> has_key s d = true.
+  Definition shape (d : db) : Prop := forall k n, assoc k d = Some n -> (length (kp k) <= 3)%nat /\ NoDup (nsubs n).
+
+  Lemma app_same_len {A} (p : list A) : forall p' q q', p ++ q = p' ++ q' -> length p = length p' -> p = p'.
+  Proof.
+    induction p as [|a p IH]; intros [|b p'] q q' H L; cbn in *; try discriminate; auto.
+    inversion H; subst. f_equal. eapply IH; eauto.
+  Qed.
+  Lemma same_level_disjoint s s' t : canon s -> canon s' -> length (kp s) = length (kp s') ->
+    extb s t = true -> extb s' t = true -> s = s'.
+  Proof.
+    intros C C' L E E'. apply prefb_spec in E as [q Hq]. apply prefb_spec in E' as [q' Hq']. rewrite Hq in Hq'.
+    apply canon_inj; auto. eapply app_same_len; eauto.
+  Qed.
+  Lemma wf_shape d : wf d -> shape d.
+  Proof.
+    intros (_&W2&_) k n H. destruct (W2 _ _ H) as (_&B). destruct n as [id subs r l|g]; cbn.
+    - destruct B as (B1&B2&_). split; [lia|auto].
+    - split; [lia|constructor].
+  Qed.
+  Lemma wf_stored_subs d key : wf d -> stored_subs key d.
+  Proof.
+    intros (_&W2&_) k n s H _ Hs. destruct (W2 _ _ H) as (_&B). destruct n as [id subs r l|g]; [|destruct Hs].
+    destruct B as (_&_&B). now apply B.
+  Qed.
+  Lemma removed_has_key R d d' k : removed R d d' -> has_key k d' = true -> R k = false /\ has_key k d = true.
+  Proof. intros Hr H. unfold has_key in H. rewrite Hr in H. destruct (R k); [discriminate|auto]. Qed.
+
+  Lemma go_total f key :
+    (forall s d, wk d -> shape d -> has_key s d = true -> stored_subs s d -> (4 <= f + length (kp s))%nat ->
+                 fine (delete_sub_tree G f s d)) ->
+    forall subs d, wk d -> shape d -> NoDup subs ->
+      (forall s, In s subs -> child_of s key /\ has_key s d = true /\ stored_subs s d) ->
+      (4 <= f + S (length (kp key)))%nat -> fine (go_dst f subs d).
+  Proof.
+    intros Hf. induction subs as [|s rest IH]; intros d W Sh N Hs L; cbn [go_dst]; [eexists; reflexivity|].
+    destruct (Hs s (or_introl eq_refl)) as ([x Hx]&Hst&Hss).
+    assert (Ls : length (kp s) = S (length (kp key))) by (rewrite Hx, app_length; cbn; lia).
+    destruct (Hf s d W Sh Hst Hss) as [d1 E1]; [lia|]. rewrite E1. cbn [bind].
+    destruct (dst_spec f _ _ _ W E1) as (N1&R1).
+    assert (W1 : wk d1). { eapply wk_removed; eauto. intros k k' A B. eapply extb_trans; eauto. }
+    assert (Cs : canon s). { destruct (has_key_assoc _ _ Hst) as [ns Hns]. destruct W as (_&W2&_). now destruct (W2 _ _ Hns). }
+    inversion N as [|? ? Hnin N']; subst. apply IH; auto.
+    - intros k n Hk. rewrite R1 in Hk. destruct (extb s k); [discriminate|]. eapply Sh; eauto.
+    - intros s' Hs'. destruct (Hs s' (or_intror Hs')) as ([x' Hx']&Hst'&Hss').
+      assert (Ls' : length (kp s') = S (length (kp key))) by (rewrite Hx', app_length; cbn; lia).
+      assert (Cs' : canon s'). { destruct (has_key_assoc _ _ Hst') as [ns Hns]. destruct W as (_&W2&_). now destruct (W2 _ _ Hns). }
+      assert (D : forall t, extb s' t = true -> extb s t = false).
+      { intros t Et. destruct (extb s t) eqn:E; auto. exfalso. apply Hnin.
+        rewrite (same_level_disjoint s s' t); auto. lia. }
+      split; [eexists; eauto|]. split.
+      + unfold has_key. rewrite R1, (D s' (extb_refl s')). exact Hst'.
+      + intros k n t Hk Ek Ht. rewrite R1 in Hk. destruct (extb s k) eqn:Esk; [discriminate|].
+        pose proof (Hss' k n t Hk Ek Ht) as Htd. unfold has_key. rewrite R1.
+        assert (Et : extb s' t = true).
+        { eapply extb_trans; [exact Ek|]. destruct W as (_&W2&_). destruct (W2 _ _ Hk) as (_&Hc). destruct (Hc _ Ht) as [y Hy].
+          apply prefb_spec. exists [y]. exact Hy. }
+        rewrite (D t Et). exact Htd.
+  Qed.
+  Lemma dst_total f : forall s d, wk d -> shape d -> has_key s d = true -> stored_subs s d ->
+    (4 <= f + length (kp s))%nat -> fine (delete_sub_tree G f s d).
+  Proof.
+    induction f as [|f IH]; intros s d W Sh Hs Hss L.
+    - destruct (has_key_assoc _ _ Hs) as [n Hn]. destruct (Sh _ _ Hn). lia.
+    - rewrite dst_unfold. destruct (has_key_assoc _ _ Hs) as [n Hn]. rewrite Hn.
+      destruct (go_total f s IH (nsubs n) d W Sh) as [dg Eg].
+      + now destruct (Sh _ _ Hn).
+      + intros t Ht. destruct W as (_&W2&_). destruct (W2 _ _ Hn) as (_&Hc). split; [now apply Hc|]. split.
+        * eapply Hss; eauto. apply extb_refl.
+        * intros k n' t' Hk Ek Ht'. eapply Hss; eauto. eapply extb_trans; [|exact Ek].
+          destruct (Hc _ Ht) as [y Hy]. apply prefb_spec. exists [y]. exact Hy.
+      + lia.
+      + rewrite Eg. cbn [bind]. eexists; reflexivity.
+  Qed.
+
+  Lemma delete_up_some_total fuel up : forall h d, wfd h d -> ups_ok h up -> (length (kp h) <= 3)%nat ->
+    fine (delete_up G fuel up (Some h) d).
+  Proof.
+    induction up as [|pk up IH]; intros h d W U L; cbn [delete_up]; [eexists; reflexivity|].
+    destruct U as (Cpk&[x Hx]&U').
+    assert (Lpk : (length (kp pk) <= 2)%nat) by (rewrite Hx, app_length in L; cbn in L; lia).
+    destruct (assoc pk d) as [n|] eqn:Hp.
+    - destruct n as [id subs r l|g].
+      + destruct (str_in h subs) eqn:Hin; [|eexists; reflexivity].
+        apply str_in_In in Hin. cbv zeta. destruct (drop h subs) as [|s0 rest0] eqn:Hf; [|eexists; reflexivity].
+        apply IH; [eapply wfd_up; eauto|exact U'|lia].
+      + exfalso. destruct W as (_&W2&_). destruct (W2 _ _ Hp) as (_&B). cbn in B. lia.
+    - apply IH; [|exact U'|lia]. apply wf_wfd_missing; auto.
+      + eapply wfd_unlisted; eauto. intros id' subs' r' l' E. congruence.
+      + unfold has_key. now rewrite Hp.
+  Qed.
+  Lemma delete_up_none_total fuel key up d : wf d -> ups_ok key up -> canon key -> (4 <= fuel)%nat ->
+    fine (delete_up G fuel (key :: up) None d).
+  Proof.
+    intros W U Ck Lf. cbn [delete_up]. destruct (assoc key d) as [n|] eqn:Hk; [|eexists; reflexivity].
+    change (fine (d1 <- go_dst fuel (nsubs n) d ;; delete_up G fuel up (Some key) (adel key d1))).
+    pose proof (wf_wk _ W) as Wk. pose proof (wf_shape _ W) as Sh.
+    destruct (go_total fuel key (dst_total fuel) (nsubs n) d Wk Sh) as [dg Eg].
+    - now destruct (Sh _ _ Hk).
+    - intros t Ht. destruct Wk as (_&W2&_). destruct (W2 _ _ Hk) as (_&Hc). split; [now apply Hc|]. split.
+      + eapply (wf_stored_subs d key W); eauto. apply extb_refl.
+      + now apply wf_stored_subs.
+    - lia.
+    - rewrite Eg. cbn [bind]. destruct (del_node_spec fuel key n d dg (dst_spec fuel) Wk Hk Eg) as (N&R).
+      apply delete_up_some_total; auto.
+      + eapply wf_removed_wfd; eauto. unfold has_key. now rewrite Hk.
+      + now destruct (Sh _ _ Hk).
+  Qed.
+
+  Lemma bk_err p e : branch_key p = Err e -> e = ValueError.
+  Proof.
+    unfold branch_key. destruct (negb _); [congruence|]. destruct (negb _); [congruence|discriminate].
+  Qed.
+  Lemma bk_modelled p : branch_key p <> Unmodelled.
+  Proof. unfold branch_key. destruct (negb _); [discriminate|]. destruct (negb _); discriminate. Qed.
+  Lemma keys_of_err ps e : keys_of ps = Err e -> e = ValueError.
+  Proof.
+    induction ps as [|p ps IH]; cbn [keys_of]; [discriminate|].
+    destruct (branch_key p) eqn:E; cbn [bind]; [|intros H; inversion H; subst; eapply bk_err; eauto|discriminate].
+    destruct (keys_of ps); cbn [bind]; [discriminate|intros H; inversion H; subst; now apply IH|discriminate].
+  Qed.
+  Lemma keys_of_modelled ps : keys_of ps <> Unmodelled.
+  Proof.
+    induction ps as [|p ps IH]; cbn [keys_of]; [discriminate|].
+    destruct (branch_key p) eqn:E; cbn [bind]; [|discriminate|exfalso; eapply bk_modelled; eauto].
+    destruct (keys_of ps); cbn [bind]; try discriminate. congruence.
+  Qed.
+
+  Theorem db_delete_refusals path d : wf d ->
+    match db_delete G path d with
+    | Ok _ => True
+    | Err e => e = ValueError \/ e = IndexError
+    | Unmodelled => False
+    end.
+  Proof.
+    intros W. unfold db_delete. destruct path as [|p0 rest]; [now right|].
+    destruct (branch_key [p0]) as [k0|e|] eqn:E0; cbn [bind]; [|left; eapply bk_err; eauto|eapply bk_modelled; eauto].
+    destruct (has_key k0 d) eqn:Hk; cbn [negb]; [|exact I].
+    assert (K0 : kp k0 = [p0]) by (apply bk_kp; [auto|discriminate]).
+    destruct rest as [|p1 rest].
+    - destruct (dst_total (4 + length d) k0 d (wf_wk _ W) (wf_shape _ W) Hk (wf_stored_subs _ _ W)) as [d' E]; [lia|]. now rewrite E.
+    - destruct (keys_of (prefixes_rev [] (p0 :: p1 :: rest) [])) as [ks|e|] eqn:Ek; cbn [bind];
+        [|left; eapply keys_of_err; eauto|eapply keys_of_modelled; eauto].
+      assert (P : pchain (prefixes_rev [] (p0 :: p1 :: rest) [])) by (apply prefixes_rev_chain; cbn; auto).
+      pose proof (keys_of_chain _ _ P Ek) as C. destruct ks as [|key up]; [cbn; exact I|]. destruct C as (Ck&U).
+      destruct (delete_up_none_total (4 + length d) key up d W U Ck) as [d' E]; [lia|]. now rewrite E.
+  Qed.
+
+  Lemma revoke_tree_total f : forall key d, wf d -> has_key key d = true -> (4 <= f + length (kp key))%nat ->
+    fine (revoke_tree G g_revoke f key d).
+  Proof.
+    induction f as [|f IH]; intros key d W Hk L.
+    - destruct (has_key_assoc _ _ Hk) as [n Hn]. destruct (wf_shape _ W _ _ Hn). lia.
+    - cbn [revoke_tree]. destruct (has_key_assoc _ _ Hk) as [n Hn]. rewrite Hn. destruct n as [id subs r l|g]; [|eexists; reflexivity].
+      set (d1 := aset key (NInfo id subs true l) d).
+      assert (W1 : wf d1) by (eapply wf_aset_same_subs; eauto; reflexivity).
+      assert (K1 : assoc key d1 = Some (NInfo id subs true l)) by (unfold d1; apply assoc_aset_same).
+      assert (Inc : incl subs subs) by apply incl_refl.
+      clearbody d1. revert Inc d1 W1 K1. generalize subs at 1 4 as rest.
+      induction rest as [|s rest IHr]; intros Inc d1 W1 K1; [eexists; reflexivity|].
+      assert (Hs : In s subs) by (apply Inc; now left).
+      destruct (wf_subordinates_stored _ W1 _ _ _ _ _ _ K1 Hs) as (Hst&[x Hx]).
+      destruct (IH s d1 W1 Hst) as [d2 E2]. { rewrite Hx, app_length. cbn. lia. }
+      rewrite E2. cbn [bind]. apply IHr.
+      + intros t Ht. apply Inc. now right.
+      + eapply revoke_tree_wf; eauto.
+      + rewrite (revoke_tree_frame f s d1 d2 W1 E2 key); auto.
+        destruct (extb s key) eqn:E; auto. exfalso. apply extb_len in E. rewrite Hx, app_length in E. cbn in E. lia.
+  Qed.
+  Theorem revoke_refusals path lvl d : wf d ->
+    match revoke_sub_tree G g_revoke path lvl d with
+    | Ok _ => True
+    | Err e => e = ValueError \/
+               (e = KeyError /\ exists key, branch_key (match lvl with None => path | Some l => firstn (S l) path end) = Ok key
+                                            /\ has_key key d = false)
+    | Unmodelled => False
+    end.
+  Proof.
+    intros W. unfold revoke_sub_tree.
+    assert (T : forall key, match revoke_tree G g_revoke (4 + length d) key d with
+                            | Ok _ => True | Err e => e = KeyError /\ has_key key d = false | Unmodelled => False end).
+    { intros key. destruct (has_key key d) eqn:Hk.
+      - destruct (revoke_tree_total (4 + length d) key d W Hk) as [d' E]; [lia|]. now rewrite E.
+      - cbn [Nat.add revoke_tree]. unfold has_key in Hk. destruct (assoc key d); [discriminate|]. auto. }
+    destruct lvl as [l|].
+    - destruct (Nat.ltb (length path) l); [now left|].
+      destruct (branch_key (firstn (S l) path)) as [key|e|] eqn:Eb; cbn [bind]; [|left; eapply bk_err; eauto|eapply bk_modelled; eauto].
+      specialize (T key). destruct (revoke_tree G g_revoke (4 + length d) key d); auto. right. destruct T. split; eauto.
+    - destruct (branch_key path) as [key|e|] eqn:Eb; cbn [bind]; [|left; eapply bk_err; eauto|eapply bk_modelled; eauto].
+      specialize (T key). destruct (revoke_tree G g_revoke (4 + length d) key d); auto. right. destruct T. split; eauto.
+  Qed.
+
+  Lemma reach_delete_refusals ops path :
+    match db_delete G path (reach ops) with Ok _ => True | Err e => e = ValueError \/ e = IndexError | Unmodelled => False end.
+  Proof. apply db_delete_refusals, reach_wf. Qed.
+  Lemma reach_revoke_refusals ops path lvl :
+    match revoke_sub_tree G g_revoke path lvl (reach ops) with
+    | Ok _ => True
+    | Err e => e = ValueError \/
+               (e = KeyError /\ exists key, branch_key (match lvl with None => path | Some l => firstn (S l) path end) = Ok key
+                                            /\ has_key key (reach ops) = false)
+    | Unmodelled => False
+    end.
+  Proof. apply revoke_refusals, reach_wf. Qed.
 End DbProofs.
